@@ -4,7 +4,7 @@ from typed_common import *
 HARNESSES = []
 import os as _os
 FX = ['-DFIXED_INPUT'] if _os.environ.get('VERIF_EXP_FIXED') else []
-Q = ['T_Seq', 'T_SeqX', 'T_Cho', 'T_SeqOf', 'T_Oct', 'T_Bits', 'T_IntX', 'T_SetOf', 'T_Set', 'T_Enum']
+Q = ['T_Seq', 'T_SeqX1', 'T_SeqX', 'T_Cho', 'T_SeqOf', 'T_Oct', 'T_Bits', 'T_IntX', 'T_SetOf', 'T_Set', 'T_Enum']
 for t, k in combos():
     n = 4 if t in ('T_Seq', 'T_SeqX', 'T_Cho', 'T_SeqOf', 'T_SetOf', 'T_Set') else 5
     tiers = ('quick', 'thorough') if t in Q else ('thorough',)
